@@ -2,6 +2,8 @@
 //! implementation's helpers (DESIGN.md section 3).
 
 pub mod canon;
+pub mod gas;
+pub mod kv;
 pub mod mem;
 pub mod rfc6962;
 pub mod smt;
